@@ -76,6 +76,7 @@ def main():
         t0 = time.time()
         try:
             fn(ob)
+            ob.finish()
         except BaseException as e:  # noqa
             if isinstance(e, KeyboardInterrupt):
                 raise
